@@ -300,7 +300,7 @@ class MaximumOfPerformances(Underlying):
         self, times, path: np.array, jump_path: np.array, payoff_underlying=None
     ) -> np.array:
         log_performances = path[..., -1] - self.log_spots
-        return exp(max(log_performances))
+        return np.exp(max(log_performances))
 
 
 class NthSpot(Underlying):
